@@ -18,3 +18,15 @@ c.modifies()
 
 from contracts.c_factory import _native_secret_in_text      # noqa: E402
 c.native_check(_native_secret_in_text)
+
+
+# Left-over bytes of a structure (a value placed after an item the decoder does not expect) are
+# request data - possibly a password or derivation secret: the error raised for them, which the
+# session logs at ERROR, must not quote them.
+from contracts.c_taint import t_no_secret_in_logs_or_errors      # noqa: E402
+
+WIRE_STREAM = ('obj', 'kmip.core.utils.BytearrayStream', {'buffer': ('tainted_bytes', 'wire')})
+c = contract("kmip.core.primitives.Base.is_oversized", variant="taint").props('C20')
+c.args(self=('obj', 'kmip.core.primitives.Base', {}), stream=WIRE_STREAM)
+c.raises('exceptions.StreamNotEmptyError')
+c.trace("no-secret-in-logs-or-error-text", t_no_secret_in_logs_or_errors)
